@@ -212,7 +212,9 @@ def awake_steps(c):
 
 
 def scenario(c, tag):
-    L = ["echo CASE %s" % tag, "natoms 1", "dt %r" % c["dt"], "temperature 300", "samestep %d" % c["same"], "prefix",
+    auto = c.get("auto_state") and c.get("resume_at") is not None
+    L = ["echo CASE %s" % tag, "natoms 1", "dt %r" % c["dt"], "temperature 300", "samestep %d" % c["same"],
+         ("prefix %s" % tag) if auto else "prefix", "restartfreq %d" % (c["auto_state"] if auto else 0),
          "gauss " + " ".join(hx(g) for g in c["gauss"]), "xnew", "config EOF", "scriptedColvarForces on",
          "colvar {", "  name v", "  timeStepFactor %d" % c["tsf"],
          "  lowerBoundary %r" % c["lower"], "  upperBoundary %r" % c["upper"], "  width %r" % c["width"],
@@ -251,8 +253,11 @@ def scenario(c, tag):
         L += ev_lines(e)
     if K is not None:
         # events 0..K-1 have been executed; event K-1 is executed again by a new object that loaded the state saved after it
-        st = "%s.state" % tag
-        L += ["save text %s" % st]
+        st = ("%s.colvars.state" % tag) if auto else ("%s.state" % tag)
+        if not auto:
+            L += ["save text %s" % st]                      # otherwise: the file written from within calc() at the last step
+        else:
+            L += ["prefix", "restartfreq 0"]
         if c.get("reload"):
             # the same session goes on for two steps, then loads the state it saved (no new object)
             for dv in (0.125, -0.25):
@@ -824,6 +829,10 @@ def add_resume(r, c):
         return
     c["resume_at"] = r.choice(cand)
     m = r.random()
+    it_k = aw[c["resume_at"] - 1][1]
+    if m > 0.7 and it_k >= 1:
+        c["auto_state"] = it_k                             # colvarsRestartFrequency: the state written from within calc() at that step
+        return
     if m < 0.15:
         c["reload"] = 1                                    # the state is loaded back into the same session two steps later
     elif m < 0.35 and c["running"]:
@@ -952,7 +961,7 @@ def check(run):
         aw = awake_steps(c)
         sx = sv = xs = None
         try:
-            for l_ in open(os.path.join(d, "%s.state" % tag)):
+            for l_ in open(os.path.join(d, ("%s.colvars.state" if c.get("auto_state") else "%s.state") % tag)):
                 w_ = l_.split()
                 if len(w_) == 2 and w_[0] == "extended_x":
                     sx = float(w_[1])
@@ -1001,6 +1010,8 @@ def check(run):
                 run.mismatch("state:saved_xv", {"scenario": scn, "model_case": jobs[i][3], "engine_step": K - 1}, (sx, sv), (ms[K - 1]["saved_x"], ms[K - 1]["saved_v"]))
         if c.get("reload"):
             run.dist("resumed: state loaded back into the same session")
+        if c.get("auto_state"):
+            run.dist("resumed: from the automatic restart file (written inside calc())")
         # -- the consistency check of the restarted job
         shift = c.get("restart_shift", 0.0)
         want_refused = bool(aw[K - 1][2] and c["running"] and pdiff(c, shift) ** 2 / c["width"] ** 2 > 0.25)
